@@ -220,8 +220,8 @@ def make_reservoir_case(rng, tier, leaky=False):
         s = rng.randrange(ns)
         for i in range(n):
             chs[s * n + i] = True
-    c["chs"] = chs
     c["state"] = [float(rng.randint(5, 40)) if b else float(rng.choice([0, 0, 0, 1, 2])) for b in chs]
+    c["chs"] = [rng.choice([1, 2, 3, 5]) if b else 0 for b in chs] if rng.random() < 0.3 else chs
     return c
 
 
